@@ -24,6 +24,66 @@ CLAIMED = {
             "Seeded search over operation histories and a configuration grid incl. zero capacities, with boundary-relative amounts; every step is judged by a clause-for-clause accounting oracle (no overdraft, exact charge, free failure, capacity, transfers conserve, bounded spend, no raise). No schedule or clock is involved; this is the sequential specification C05 relies on. Sampling, not proof.",
             "Trusts the oracle in props/c04.py; non-negative integer arguments; the over-capacity balance a failed spend's NADH top-up leaves behind is tolerated because no clause forbids it.",
             "DESIGN 4 C04"),
+    "C03": ("exploration",
+            "deterministic simulation: seeded histories of registrations/calls/ceiling changes against the real Mitochondria and Nucleus with an adversarial scripted LLM provider; side-effect oracle evaluated inside the tool bodies",
+            "Seeded search over histories (register/re-register, metabolize on every pathway, execute_tool_call, transcribe_with_tools with a provider that requests forbidden/unknown tools forever, ceiling widened/narrowed, raising tool bodies); the oracle runs inside each fake tool body at the instant it executes. Sampling, not proof.",
+            "Trusts the oracle in props/c03.py; a tool is forbidden only if outside both the constructed and the current ceiling; refusal-as-failure is demanded only where the tool call is the top-level request.",
+            "DESIGN 4 C03"),
+    "C06": ("fault_enumeration",
+            "deterministic simulation with fault enumeration: every assignment of {permit, execute, block, defer, unknown, failure, raises, starved} to each voter (exhaustive n<=3 quick / n<=4 thorough) x all strategies/thresholds/min_voters/EmergencyQuorum, then seeded sampling n=5..7, reliability-drift histories and real agents starved by the shared budget; clauses S1-S6 in exact fractions incl. metamorphic monotonicity re-runs",
+            "Complete enumeration of voter behaviour/fault assignments for small electorates (weights and confidences drawn per row) plus seeded sampling beyond; fakes play the voters, the real QuorumSensing/EmergencyQuorum/ATP_Store aggregate. Exhaustive only over the stated finite table.",
+            "Trusts the oracle in props/c06.py; S2 is qualified by 'votes that count under the strategy's own rule'; one listed finding (ratio strategies at custom threshold 1.0).",
+            "DESIGN 4 C06"),
+    "C07": ("fault_enumeration",
+            "deterministic simulation with fault enumeration: all 6 gate logics x 7 executor x 7 assessor behaviours (incl. raising agents) x cache on/off enumerated exhaustively, then seeded cache/clock histories under the virtual clock",
+            "The 588-cell verdict/fault table is enumerated completely in both tiers with fake executor/assessor agents against the real CoherentFeedForwardLoop; beyond it, seeded repeat/caching histories with TTL boundaries, backward clock jumps, prefix-colliding prompts and real agents on a starving budget.",
+            "Trusts the oracle in props/c07.py; 'unknown verdict' is read as 'never counts as a permit'; the table direction is 'not blocked => table satisfied' as the statement gives it.",
+            "DESIGN 4 C07"),
+    "C08": ("exploration",
+            "deterministic simulation: seeded request-outcome/fault sequences x virtual-clock moves (below/at/above the recovery timeout, backward jumps) against the real circuit breaker; timed-automaton clause oracle on scripted verdicts, call counters and the shared budget",
+            "Seeded search over histories of {success, intentional block, executor failure, raising agent, cache hit, reset} interleaved with clock faults for thresholds 1..4; fakes spend from the real shared ATP_Store so 'spends nothing while open' is observable. Sampling, not proof.",
+            "Trusts the oracle in props/c08.py; outcomes are classified from the scripted verdicts, not from LoopResult; UNKNOWN/DEFER mismatches are neutral.",
+            "DESIGN 4 C08"),
+    "C10": ("exploration",
+            "deterministic simulation: seeded filter/learn/forget/import/threshold/clock histories on the real Membrane (two instances) and InnateImmunity under the virtual clock against a reference model of signatures, blocked-content memory and the rate window",
+            "Seeded search over histories with rule changes and clock moves between filters of related inputs (case-perturbed, embedded, previously blocked), rate-limit windows in virtual time and inflammation cool-down. The 'for all input strings' clauses are only sampled from a generated pool (incl. lone surrogates, 100k inputs, deep JSON) and nothing stronger is claimed for them.",
+            "Trusts the reference model in props/c10.py; case change is limited to single-character case mappings; input universality is not claimed.",
+            "DESIGN 4 C10"),
+    "C14": ("fault_enumeration",
+            "deterministic simulation with fault enumeration: a fault at every callback/controller step of execute_operation (k-th acquisition blocked/pre-empting/re-entrant/unknown, checkpoint false/raising, work raising/stalling/re-entering, validate false/raising/re-entering) on the real CoordinationSystem/IntegratedCell, then further operations",
+            "A 3168-case single-fault table is enumerated completely, then one- and two-fault cases with stepped holders, watchdog time-outs under the virtual clock, manual kills and shutdown are sampled; ownership is observed from inside work_fn and after every call.",
+            "Trusts the oracle in props/c14.py; work-function faults are Exception subclasses; operation ids are unique among live operations.",
+            "DESIGN 4 C14"),
+    "C15": ("exploration",
+            "deterministic simulation: seeded contention-biased acquire/release/complete/abort/watchdog histories (plus ring and pre-emption families) on the real controller, compared after every step with a reference wait-for graph recomputed from the history and the real lock owners",
+            "Seeded search over histories of 2-3 operations x 2-3 resources with and without pre-emption; only cycle-level disagreement is a violation, the edge-level diff supplies the signature site; watchdog victim clauses are checked on every resolved deadlock. Sampling (the statement's 'exhaustively to depth 8' is not claimed).",
+            "Trusts the reference graph in props/c15.py; a cycle that exists only through a stale block (resource momentarily free, then taken by someone else) is accepted either way.",
+            "DESIGN 4 C15"),
+    "C16": ("fault_enumeration",
+            "deterministic simulation with fault enumeration: every assignment of Byzantine handler behaviour (raw, correctly labelled, wrong type, integrity lower/higher, missing/extra port, returns nothing, raises) to each module of small diagrams, then seeded diagrams up to 7 modules; handlers record what they are handed",
+            "A 32670-case table (14 shapes of <=3 modules x 5 external labellings x all handler behaviours) is enumerated completely, diagrams up to 7 modules with random wires (cycles, fan-in, ill-typed attempts) are sampled; connect() and execute() run under a line budget so a scheduler loop that never ends is a deterministic verdict.",
+            "Weakest fit of the claimed properties (nothing is scheduled, no clock): the simulator contributes the misbehaving handlers only. Order is judged on returned reports.",
+            "DESIGN 4 C16"),
+    "C17": ("exploration",
+            "deterministic simulation: seeded observation/inspection/training/flag/reset histories under the virtual clock on the real ImmuneSystem (display, thymus, T cell, Treg, memory) with fake tolerance-rule conditions; clause oracle with an independently recomputed 'inside baseline'",
+            "Seeded search over histories with values just inside and outside each trained bound, anomaly streaks, false-alarm resets up to anergy, manual flags, remembered threats, retraining, rule add/remove and clock advance. Sampling, not proof.",
+            "Trusts the oracle in props/c17.py; NaN/inf observations are not generated.",
+            "DESIGN 4 C17"),
+    "C18": ("exploration",
+            "deterministic simulation: the real ChaperoneLoop, RegenerativeSwarm and Nucleus tool loop against scripted adversarial peers (generator, worker factory, provider) with call counters; limits 0..4 x scripts of length <=3 enumerated first, then sampled; SimBudget at bound+2 calls and a line budget make non-termination a deterministic verdict",
+            "Bounded liveness against in-process fake peers: always invalid, valid at attempt k, alternating, echoing the error, raising, never repeating, always requesting tools, unknown tools. 10305 enumerated cases, then seeded sampling of longer scripts.",
+            "Trusts pydantic for re-validation and the oracle in props/c18.py; bounds are upper bounds (stopping earlier is not a violation).",
+            "DESIGN 4 C18"),
+    "C19": ("fault_enumeration",
+            "deterministic simulation with fault enumeration: every stage callback (checkpoint, processor, error handler) independently in {absent, pass, reject, raise}, required/optional, both halt modes, amplification incl. >max - exhaustive for <=2 stages (quick) / <=3 (thorough), sampled for 4-5 stages and the MAPK preset; fakes log (stage, role, signal)",
+            "74112 one- and two-stage pipelines are enumerated completely in the quick tier (221184 more three-stage ones in thorough) against the real Cascade; stage outputs are unique tokens so 'ran for exactly that signal' and composition are checkable.",
+            "Trusts the oracle in props/c19.py; amplification is the step-wise clamped product; halting is demanded only after required stages.",
+            "DESIGN 4 C19"),
+    "C20": ("exploration",
+            "deterministic simulation: seeded configuration histories on a real Genome lineage (parent + replicated children) with a scripted approval callback (approve subset / None / raise) and random.random drawn from the plan; reference model per genome",
+            "Seeded search over {add_gene, mutate, rollback, expression changes, replicate, express} applied to any genome of the lineage; after every operation every genome is observed through export()/get_hash()/get_statistics() and compared with the model. Degenerate sequential case with a PRNG seam and callback faults.",
+            "Trusts the model in props/c20.py; adding a previously absent gene is construction; expression levels are not 'stored values'.",
+            "DESIGN 4 C20"),
     "C05": ("exploration",
             "deterministic simulation: real threads under a seeded line-granularity scheduler (baton passing + sys.settrace), sim locks/timers, Wing-Gong linearizability check against the real store run sequentially",
             "Seeded search over thread interleavings at source-line granularity of 2-3 tasks x 1-3 store operations (plus the store's own regeneration thread on a virtual timer); each explored schedule must be deadlock-free (exact verdict), keep balances non-negative and be linearizable. Sampling of schedules, not enumeration.",
